@@ -85,7 +85,7 @@ Definition valueQs (sl : Q) := @value Q _ Qsqrt sl.
 Definition valueQ := valueQs 0.
 Definition proxQ := @prox Q _ Qsqrt.
 Definition gradQ := @grad Q _ Qsqrt.
-Definition conjQ := @conj Q _.
+Definition conjQ := @cconj Q _.
 
 Definition sl12 : Q := 1 # 1000000000000.
 (* accept the model's value with the unit-ball test moved by +-1e-12 *)
